@@ -167,6 +167,19 @@ Definition cprb_setup (B active : nat) (Kb : gcrs (@block S)) (junk : vec) : cpr
                    (seq 0 np))).
 
 
+(* init(..., std::false_type) as REPAIRED (fix: entries of the active rows in inactive block columns,
+   col >= np, are skipped when App is sized and filled, as the scalar variant does): the model the
+   harness compares with when the repaired code is present in the tree under test *)
+Definition cprb_setup_f (B active : nat) (Kb : gcrs (@block S)) (junk : vec) : cpr_ops :=
+  let n := length (grows Kb) in let np := cpr_N n active in
+  let o := cprb_setup B active Kb junk in
+  mkCprOps (c_fpp o) (c_scatter o)
+    (mkCrs np (map (fun i => let br := nth i (grows Kb) [] in
+                             let d := cprb_weights B br i junk in
+                             map (fun cv => (fst cv, cprb_app_val B d (snd cv)))
+                                 (filter (fun cv => Nat.ltb (fst cv) np) br))
+                   (seq 0 np))).
+
 (* sort_rows on a block-valued matrix (detail::sort_row is generic in the value type) *)
 Fixpoint gins_right {X} (e : nat * X) (r : grow X) : grow X :=
   match r with
@@ -176,5 +189,7 @@ Fixpoint gins_right {X} (e : nat * X) (r : grow X) : grow X :=
 Definition gsort_row {X} (r : grow X) : grow X := fold_left (fun acc e => gins_right e acc) r [].
 Definition cprb_make (B active : nat) (Kb : gcrs (@block S)) (junk : vec) : cpr_ops :=
   cprb_setup B active (mkG (gncols Kb) (map gsort_row (grows Kb))) junk.
+Definition cprb_make_f (B active : nat) (Kb : gcrs (@block S)) (junk : vec) : cpr_ops :=
+  cprb_setup_f B active (mkG (gncols Kb) (map gsort_row (grows Kb))) junk.
 
 End Cpr.
